@@ -130,8 +130,30 @@ func run() int {
 	if *flagSelfTest {
 		return selfTest(spec, b)
 	}
-	return check(spec, b)
+	rc := check(spec, b)
+	if rc == rcUnmodelled {
+		// The code under test did, at run time, something the simulator does not
+		// model (goroutines that outlive the call that started them, a sync.Map
+		// ranged over keys without a canonical order). No verdict can come from the
+		// scheduler then: run the code natively, with the map-order and clock
+		// seams and the race detector only.
+		fmt.Println("simcheck: the code under test does something the scheduler does not model; repeating the check with native goroutines (map-order and clock seams only)")
+		cleanup()
+		minDegrade = 2
+		b = prepare(spec.needRace(tier), spec.needPlain(tier))
+		rc = check(spec, b)
+		if rc == rcUnmodelled {
+			rc = 2
+		}
+	}
+	return rc
 }
+
+// rcUnmodelled is check's internal "repeat in degraded mode" result.
+const rcUnmodelled = -1
+
+// minDegrade is the first instrumentation mode prepare tries.
+var minDegrade = 0
 
 // ---------------------------------------------------------------------------
 // Build.
@@ -229,11 +251,14 @@ func prepare(needRace, needPlain bool) *build {
 	}{
 		{"", nil},
 		{"no statement yields", []string{"-yields=false"}},
-		{"no yields, locks, clock or go rewrites (map order only)", []string{"-yields=false", "-locks=false", "-clock=false", "-go=false"}},
-		{"uninstrumented", []string{"-yields=false", "-locks=false", "-clock=false", "-go=false", "-maps=false"}},
+		{"no yields, locks, clock, go or channel rewrites (map order only)", []string{"-yields=false", "-locks=false", "-clock=false", "-go=false", "-chans=false"}},
+		{"uninstrumented", []string{"-yields=false", "-locks=false", "-clock=false", "-go=false", "-chans=false", "-maps=false"}},
 	}
 	var lastErr string
 	for i, mode := range modes {
+		if i < minDegrade {
+			continue
+		}
 		if i > 0 {
 			os.RemoveAll(tree)
 			if err := copyTree(*flagRepo, tree, skip); err != nil {
@@ -254,10 +279,11 @@ func prepare(needRace, needPlain bool) *build {
 		}
 		json.Unmarshal(out.Bytes(), &b.instr)
 		if un, _ := b.instr["unmodelled_sync"].([]interface{}); len(un) > 0 && i < 2 {
-			// Channels, select, sync.Cond, timers in the code under test are not
-			// modelled by the scheduler: goroutines blocked on them would hold the
-			// simulated turn for ever. Run such code natively (map order and clock
-			// seams only; the race detector still watches it).
+			// Timers, contexts with deadlines or cancellation, signal handlers and
+			// a few syntactic forms (labelled select, select with more than 8
+			// cases) are not modelled by the scheduler: a goroutine blocked on them
+			// would hold the simulated turn for ever. Run such code natively (map
+			// order seam only; the race detector still watches it).
 			lastErr = fmt.Sprintf("unmodelled synchronisation in the code under test: %v", un)
 			continue
 		}
@@ -475,7 +501,12 @@ func runWorker(j workerJob) *workerResult {
 	env = append(env, "GOMAXPROCS="+strconv.Itoa(procs))
 	var racePrefix string
 	if j.race {
-		f, _ := os.CreateTemp(scratch, "race-")
+		f, err := os.CreateTemp(scratch, "race-")
+		if err != nil {
+			res.exitCode = 2
+			res.stderr = "cannot create the race log (scratch directory gone?): " + err.Error()
+			return res
+		}
 		racePrefix = f.Name()
 		f.Close()
 		os.Remove(racePrefix)
@@ -766,6 +797,14 @@ func check(spec *propSpec, b *build) int {
 		}
 	}
 	if len(a.harness) > 0 {
+		if minDegrade < 2 && (b.degraded == "" || strings.HasPrefix(b.degraded, "no statement")) {
+			for _, h := range a.harness {
+				if strings.Contains(h, "harness-limit-unmodelled") {
+					fmt.Printf("simcheck: %s\n", firstLines(h, 3))
+					return rcUnmodelled
+				}
+			}
+		}
 		fmt.Fprintf(os.Stderr, "simcheck: harness trouble (exit 2, no verdict):\n%s\n", strings.Join(a.harness, "\n"))
 		return 2
 	}
